@@ -25,9 +25,10 @@ var docURLs = []string{
 	"file:///r/s2/p.json",    // 5 sibling directory whose name extends the root directory's name
 	"file:///r/s/sub/q.json", // 6 second document of the sub-directory
 	"file:///r/t/u/v.json",   // 7 cousin directory (two levels)
+	"http://h/r/s/root.json", // 8 same path as the root document, on another scheme and host
 }
 
-var docNames = []string{"root", "sibling", "subdir", "parentdir", "absolute-http", "prefix-sibling-dir", "subdir2", "cousin"}
+var docNames = []string{"root", "sibling", "subdir", "parentdir", "absolute-http", "prefix-sibling-dir", "subdir2", "cousin", "same-path-other-site"}
 
 const (
 	formProperties = iota
